@@ -212,4 +212,78 @@ def insertSorted (v : α) : List α → List α
 
 def medOdd (l : List α) : α := (l.foldl (fun acc v => insertSorted v acc) []).getD (l.length / 2) 0
 
+/-! ## djs_median(array, width=w, boundary='reflect'), 2-D -/
+
+/-- the source index of every position of one padded axis: `array[0:pad][::-1]`, the array, `array[n-pad:n][::-1]`
+(numpy broadcasts an axis of length 1 into the `pad` positions) -/
+def padIdx (n pad : Nat) : List Nat :=
+  if n < pad then List.replicate pad 0 ++ List.range n ++ List.replicate pad 0
+  else ((List.range n).take pad).reverse ++ List.range n ++ ((List.range n).drop (n - pad)).reverse
+
+/-- 2-D branch of `pydl.median(array, width)` on a C-order flattened `b0 × b1` array:
+`medfilt2d(array, min(width, size))` (zero padded; ValueError for an even kernel), then the rows and
+columns `< (w-1)/2` or `> dim - (w+1)/2` are restored from the input.  The window is handed to `med` row by row. -/
+def medianFilt2 (med : List α → α) (b0 b1 : Nat) (a : List α) (w : Nat) : Except String (List α) :=
+  let kw := min w (b0 * b1)
+  if kw % 2 == 0 then .error "ValueError" else
+  let istart := (w - 1) / 2
+  let iend0 : Int := (b0 : Int) - ((w + 1) / 2 : Nat)
+  let iend1 : Int := (b1 : Int) - ((w + 1) / 2 : Nat)
+  let hk := kw / 2
+  let arr := a.toArray
+  .ok <| (List.range (b0 * b1)).map fun p =>
+    let i := p / b1
+    let j := p % b1
+    if i < istart ∨ (i : Int) > iend0 ∨ j < istart ∨ (j : Int) > iend1 then arr.getD p 0
+    else med ((List.range kw).flatMap fun (di : Nat) => (List.range kw).map fun (dj : Nat) =>
+      let r : Int := (i : Int) + (di : Int) - (hk : Int)
+      let c : Int := (j : Int) + (dj : Int) - (hk : Int)
+      if r < 0 ∨ r ≥ b0 ∨ c < 0 ∨ c ≥ b1 then 0 else arr.getD (r.toNat * b1 + c.toNat) 0)
+
+/-- `djs_median(array, width=w, boundary='reflect')` for a 2-D `n0 × n1` array (C-order flattened):
+`padsize = ceil(w/2)`; the array is surrounded by its reflections (edges and corners: the outer product of
+the 1-D reflections; numpy refuses an axis shorter than `padsize` unless it has length 1, which is
+broadcast), `median(bigarr, min(w, size))` is taken and the middle part returned. -/
+def djsMedianReflect2 (med : List α → α) (n0 n1 : Nat) (a : List α) (w : Nat) : Except String (List α) :=
+  if w == 1 then .ok a else
+  let pad := (w + 1) / 2
+  if (n0 < pad ∧ n0 ≠ 1) ∨ (n1 < pad ∧ n1 ≠ 1) then .error "ValueError" else
+  let ri := padIdx n0 pad
+  let ci := padIdx n1 pad
+  let arr := a.toArray
+  let bigarr := ri.flatMap fun r => ci.map fun c => arr.getD (r * n1 + c) 0
+  match medianFilt2 med (n0 + 2 * pad) (n1 + 2 * pad) bigarr (min w (n0 * n1)) with
+  | .error e => .error e
+  | .ok f =>
+    let fa := f.toArray
+    .ok <| (List.range (n0 * n1)).map fun p => fa.getD ((p / n1 + pad) * (n1 + 2 * pad) + (p % n1 + pad)) 0
+
+/-! ## aesthetics(method='damp') -/
+
+/-- `aesthetics(flux, invvar, 'damp')` when some pixel is bad: `erf` is scipy's error function
+(parameter).  `goodpts = invvar.nonzero()[0]`; no good pixel: `goodpts.min()` raises ValueError.
+The whole interpolated spectrum (`const=True`) is multiplied by `0.5*(1+erf((pixels-mingood)/damp1))` when bad
+pixels lead and by `0.5*(1+erf((maxgood-pixels)/damp2))` when bad pixels trail - good pixels included. -/
+def aestheticsDamp (erf : α → α) (flux invvar : List α) : Except String (List α) :=
+  let badpts := invvar.map isZeroI
+  if badpts.any id then
+    let goodpts := (List.range invvar.length).filter fun i => !(badpts.getD i true)
+    match goodpts.head?, goodpts.getLast? with
+    | some mingood, some maxgood =>
+      let nf0 := maskinterp1 flux badpts true
+      let l := 250
+      let nf1 := if mingood > 0 then
+          let damp1 : α := Scalar.ofNat (min mingood l)
+          (List.range nf0.length).map fun i =>
+            nf0.getD i 0 * (0.5 * (1.0 + erf ((Scalar.ofNat i - Scalar.ofNat mingood) / damp1)))
+        else nf0
+      let nf2 := if maxgood < flux.length - 1 then
+          let damp2 : α := Scalar.ofNat (max (min maxgood l) 1)
+          (List.range nf1.length).map fun i =>
+            nf1.getD i 0 * (0.5 * (1.0 + erf ((Scalar.ofNat maxgood - Scalar.ofNat i) / damp2)))
+        else nf1
+      .ok nf2
+    | _, _ => .error "ValueError"
+  else .ok flux
+
 end PydlVerif.Interp
